@@ -40,6 +40,13 @@ class RichMrgnEditor:
                 )
                 break
             if loc.index is not None:
+                if not 1 <= loc.index <= MAX_LOCATIONS:
+                    msg = (
+                        f"Location index {loc.index} is outside the MRGN range "
+                        f"[1, {MAX_LOCATIONS}]: {loc}"
+                    )
+                    self.log.error(msg)
+                    raise ValueError(msg)
                 if loc.index not in loc_by_id:
                     new_loc = self._build_new_location_with_index(loc, loc.index)
                     new_locations.append(new_loc)
